@@ -110,7 +110,7 @@ func TestProp(t *testing.T) {
 	}
 	gen(nil)
 	nA := len(seqs) * len(gapPatterns)
-	nB := env.Pick(400, 25000)
+	nB := env.Pick(400, 8000)
 
 	if only, skip := env.Only("c04-exhaustive"); !skip {
 		vh.ForEach(nA, 0, only, func(i int) {
